@@ -311,9 +311,10 @@ CONFIG = {
         "trusted_base": COMMON_TB + ["crypto/ed25519 as the reference", "PatVerif/Exec/Ed25519 (validated differentially)"],
         "assumptions": ["field and point arithmetic refine arithmetic mod p (observed)",
                         "Model/GoInt.lean reads Go's int64 +, -, *, <<, >>, & (2^j-1), | and byte() correctly where the generated side conditions hold"],
-        "extractors": [{"name": "sclimbs", "out": "ScLimbs.lean"}],
-        "aux_driver": {"exe": "scdriver", "ops": ["c14.screduce", "c14.scmuladd", "c14.sccanon"]},
-        "extra_modules": ["PatVerif.Proofs.Sig", "PatVerif.Proofs.DER", "PatVerif.Proofs.ScReduce", "PatVerif.Proofs.ScMulAdd", "PatVerif.Proofs.ScScalar"],
+        "extractors": [{"name": "sclimbs", "out": "ScLimbs.lean"}, {"name": "felimbs", "out": "FeLimbs.lean"}],
+        "aux_driver": {"exe": "scdriver", "ops": ["c14.screduce", "c14.scmuladd", "c14.sccanon", "c14.fe", "c14.fel"]},
+        "extra_modules": ["PatVerif.Proofs.Sig", "PatVerif.Proofs.DER", "PatVerif.Proofs.ScReduce", "PatVerif.Proofs.ScMulAdd", "PatVerif.Proofs.ScScalar",
+                          "PatVerif.Proofs.FeCarry", "PatVerif.Proofs.FeMul", "PatVerif.Proofs.FeMisc", "PatVerif.Proofs.FeBytes", "PatVerif.Proofs.FePow"],
         "contradicts": "PatVerif.Props.C14",
     },
     "C15": {
@@ -329,9 +330,10 @@ CONFIG = {
         "trusted_base": COMMON_TB + ["Mathlib", "PatVerif/Exec/Ed25519"],
         "assumptions": ["A lies in the prime-order subgroup for unblind_blind",
                         "Model/GoInt.lean reads Go's int64 operators correctly where the generated side conditions hold"],
-        "extractors": [{"name": "sclimbs", "out": "ScLimbs.lean"}],
-        "aux_driver": {"exe": "scdriver", "ops": ["c14.screduce", "c14.scmuladd", "c14.sccanon"]},
-        "extra_modules": ["PatVerif.Proofs.Group", "PatVerif.Proofs.Sig", "PatVerif.Proofs.ScReduce", "PatVerif.Proofs.ScMulAdd", "PatVerif.Proofs.ScScalar"],
+        "extractors": [{"name": "sclimbs", "out": "ScLimbs.lean"}, {"name": "felimbs", "out": "FeLimbs.lean"}],
+        "aux_driver": {"exe": "scdriver", "ops": ["c14.screduce", "c14.scmuladd", "c14.sccanon", "c14.fe", "c14.fel"]},
+        "extra_modules": ["PatVerif.Proofs.Group", "PatVerif.Proofs.Sig", "PatVerif.Proofs.ScReduce", "PatVerif.Proofs.ScMulAdd", "PatVerif.Proofs.ScScalar",
+                          "PatVerif.Proofs.FeCarry", "PatVerif.Proofs.FeMul", "PatVerif.Proofs.FeMisc", "PatVerif.Proofs.FeBytes", "PatVerif.Proofs.FePow"],
         "contradicts": "PatVerif.Props.C15",
     },
     "C16": {
